@@ -83,7 +83,7 @@ class PyRaise(Exception):
 
     def __init__(self, cls, args=(), cause=None):
         self.cls, self.eargs, self.cause = cls, args, cause
-        super().__init__(getattr(cls, "name", getattr(cls, "__name__", str(cls))))
+        super().__init__(cls.name if isinstance(cls, ClassV) else getattr(cls, "__name__", str(cls)))
 
 
 class ReturnSignal(Exception):
